@@ -397,7 +397,7 @@ func init() {
 			if lst := m.pools[p.obj]; len(lst) > 0 {
 				v := lst[len(lst)-1]
 				m.undoLog(func() { m.pools[p.obj] = lst })
-				m.pools[p.obj] = lst[:len(lst)-1 : len(lst)-1]
+				m.pools[p.obj] = lst[: len(lst)-1 : len(lst)-1]
 				return v, true
 			}
 			nf := poolNew(m, p).(Func)
